@@ -21,7 +21,16 @@ func (vc *FuncVC) calleeContract(c *ssa.CallCommon) (string, *Contract) {
 	default:
 		return "", nil
 	}
-	return key, vc.S.Contracts[key]
+	if con := vc.S.Contracts[key]; con != nil {
+		return key, con
+	}
+	// wildcard: every method of a type, e.g. log.(Logger).*
+	if i := strings.LastIndex(key, ")."); i >= 0 {
+		if con := vc.S.Contracts[key[:i+2]+"*"]; con != nil {
+			return key, con
+		}
+	}
+	return key, nil
 }
 
 func sigOf(c *ssa.CallCommon) *types.Signature {
